@@ -165,6 +165,17 @@ BREAK = [
     ("C20", "reader-skips-at-lines", "gaftools/gaf.py", "        for line in self.file:\n            yield self.parse_gaf_line(line)", "        for line in self.file:\n            if line[:1] in ('@', b'@'):\n                continue\n            yield self.parse_gaf_line(line)"),
     ("C07", "sequence-upper", "gaftools/gfa.py", "            node.seq = seq\n", "            node.seq = seq.upper()\n"),
     ("C04", "log-to-stdout", "gaftools/__main__.py", "handler = logging.StreamHandler()", "handler = logging.StreamHandler(sys.stdout)"),
+    # --- blind spots shown by the mutation cross-reference (tools/mutants.py)
+    ("C20", "run-skips-annotator", "gaftools/cli/phase.py", "    add_phase_info(gaf_file, tsv_file, output)\n", "    pass\n"),
+    ("C20", "annotator-args-swapped", "gaftools/cli/phase.py", "add_phase_info(gaf_file, tsv_file, output)", "add_phase_info(tsv_file, gaf_file, output)"),
+    ("C14", "main-does-not-run", "gaftools/cli/find_path.py", "    run(**vars(args))", "    pass"),
+    ("C09", "output-append-mode", "gaftools/cli/sort.py", 'writer = open(outgaf, "w")', 'writer = open(outgaf, "a")'),
+    ("C09", "sn-guard-or", "gaftools/cli/sort.py", "        if sn is None and sr_tag == 0:", "        if sn is None or sr_tag == 0:"),
+    ("C10", "sn-guard-or", "gaftools/cli/sort.py", "        if sn is None and sr_tag == 0:", "        if sn is None or sr_tag == 0:"),
+    ("C06", "bridge-edge-dropped", "gaftools/cli/order_gfa.py", '            scaffold_graph.add_edge(node1, "+", node2, "+", 0)\n', "            pass\n"),
+    ("C18", "bridge-ends-flipped", "gaftools/cli/order_gfa.py", "            if len(bc_end_nodes) != 2:", "            if len(bc_end_nodes) == 2:"),
+    ("C06", "single-node-no", "gaftools/cli/order_gfa.py", "{node: (bo_start, 0)}", "{node: (bo_start, 1)}"),
+    ("C07", "concat-list-not-filled", "gaftools/cli/order_gfa.py", "            out_gfa.append(f_gfa)\n", ""),
 ]
 
 TWIN = [
